@@ -180,6 +180,26 @@ func drawCase(t *rapid.T) Case {
 			Op{K: "update", N: 1 - r, C: col, D: rapid.IntRange(0, 7).Draw(t, "tailDoc"), W: []Write{{S: -1, V: rapid.IntRange(0, 7).Draw(t, "tailSeed")}}},
 			Op{K: "sync", N: r, C: col, All: true},
 		)
+	} else if c.Two && rapid.IntRange(0, 2).Draw(t, "switchBackTail") == 0 {
+		// another structured ending: both nodes add a field and make it the default; the writer writes it, switches
+		// back to an older version and writes again; only then everything is exchanged: the receiver merges, in ONE
+		// merge, a head written under the older version whose ancestor carries the field of the newer one
+		r := rapid.IntRange(0, 1).Draw(t, "tailReceiver")
+		col := 0
+		if ncols > 1 {
+			col = rapid.IntRange(0, 1).Draw(t, "tailCol")
+		}
+		f := rapid.IntRange(0, len(patchPool)-1).Draw(t, "tailField")
+		d := rapid.IntRange(0, 7).Draw(t, "tailDoc")
+		c.Ops = append(c.Ops,
+			Op{K: "sync", N: r, C: col, All: true},
+			Op{K: "patch", N: r, C: col, F: f, Def: true},
+			Op{K: "patch", N: 1 - r, C: col, F: f, Def: true},
+			Op{K: "update", N: 1 - r, C: col, D: d, W: []Write{{S: -1, V: rapid.IntRange(0, 7).Draw(t, "tailSeed")}}},
+			Op{K: "switch", N: 1 - r, C: col, V: -2 - rapid.IntRange(0, 1).Draw(t, "tailBack")},
+			Op{K: "update", N: 1 - r, C: col, D: d, W: []Write{{S: rapid.IntRange(0, 2).Draw(t, "tailSlot"), V: rapid.IntRange(0, 7).Draw(t, "tailSeed2")}}},
+			Op{K: "sync", N: r, C: col, All: true},
+		)
 	}
 	return c
 }
